@@ -3,6 +3,7 @@ to a bound, seeded random paths beyond); each path is executed on a real Sequenc
 every step both views are read on deep copies and the same operation is applied to a history-free object rebuilt
 from the pre-state content (history-independence oracle).  TLC (Trace_SeqViews) judges every step."""
 import copy
+import os
 import itertools
 import json
 
@@ -110,6 +111,11 @@ def public_call(seq, op):
         seq.to_midi_track()
     elif op == "split":
         seq.split([5, 7])
+    elif op == "split_edit_parts":
+        for part in seq.split([5, 7]):
+            part.transpose(5)
+            part.set_channel(3)
+            part.scale(2, quantise_afterwards=False)
     elif op == "overwrite_absolute_messages":
         # the list may arrive in any order: overwrite inserts each message at its time
         ms = [P.mk(m) for m in OVERWRITE]
@@ -280,6 +286,55 @@ def conv_lines(extra_scores=()):
     return out
 
 
+def factory_lines(ctx):
+    """Objects the library itself hands out (loader, bar splitter, Bar / Track / Composition, tokeniser, split, copy):
+    whatever state their two views are in, they must denote the same content.  One "conv" line per object: the absolute
+    view against the relative view, each read on its own deep copy."""
+    import random
+    from harness import drive_midi as M
+    from harness.common import score_abs
+    from scoda.elements.bar import Bar
+    from scoda.elements.composition import Composition
+    from scoda.tokenisation.notelike_tokenisation import MultiTrackLargeVocabularyNotelikeTokeniser as Tokeniser
+    rng = random.Random(ctx.seed * 7919 + 5)
+    M.TMPDIR = str(ctx.tmp)
+    objs = []
+    for k in range(60 if not ctx.thorough else 400):
+        nt = rng.randint(1, 3)
+        tracks = [M.random_track(rng, t, nmax=rng.choice([4, 8]), sig=(k % 2 == 0)) for t in range(nt)]
+        path = M.tmpfile()
+        try:
+            M.write_file(rng.choice([24, 96, 480, 100]), tracks, path)
+            objs += list(Sequence.sequences_load(file_path=path))
+        except Exception:
+            pass
+        finally:
+            os.unlink(path)
+    scores = CONV_SCORES[:: max(1, len(CONV_SCORES) // (40 if not ctx.thorough else 300))]
+    for i, sc in enumerate(scores):
+        try:
+            s = P.seq_from_abs(score_abs(sc)) if i % 2 else P.seq_from_rel(P.abs_to_rel(score_abs(sc)))
+            if i % 3 == 0:
+                s.refresh()
+            objs += [s.copy()] + s.split([7, 9])
+            q = s.copy()
+            q.quantise_and_normalise()
+            bars = Sequence.sequences_split_bars([q, P.seq_from_abs(OTHER)], 0)
+            objs += [b.sequence for tb in bars for b in tb] + [Bar.to_sequence(tb) for tb in bars]
+            objs += Composition.from_sequences([q.copy()]).to_sequences()
+            tok = Tokeniser(num_tracks=2)
+            objs += tok.detokenise(tok.tokenise([Bar.to_sequence(tb) for tb in bars]))
+        except Exception:
+            pass
+    lines = []
+    for o in objs:
+        try:
+            lines.append({"kind": "conv", "dir": "abs2rel", "src": P.raw_abs(o), "out": P.raw_rel(o), "factory": True})
+        except Exception:
+            lines.append({"kind": "conv", "dir": "abs2rel", "src": [P.internal(1)], "out": [], "factory": True})   # unreadable: rejected
+    return lines
+
+
 CONV_SCORES = []
 FINDING_ITER = "C04.iter.edit-after-reading-other-view-in-same-turn"
 
@@ -332,7 +387,7 @@ def run_streamed(ctx, cases):
         res = pmap(execute, cases[b0:b0 + B], chunk=100)
         obs = [ln for lines in res for ln in lines]
         if b0 == 0:
-            cl = conv_lines(CONV_SCORES)
+            cl = conv_lines(CONV_SCORES) + factory_lines(ctx)
             for i, x in enumerate(cl):
                 x["grp"] = f"conv{i}"
             obs.extend(cl)
@@ -360,6 +415,7 @@ def run_streamed(ctx, cases):
 
 
 def run(ctx):
+    global CONV_SCORES
     if ctx.replay:
         o = json.load(open(ctx.replay))["observation"]
         g = ctx.generate("Gen_SeqViews", "Gen_SeqViews.cfg")[0]
@@ -368,7 +424,10 @@ def run(ctx):
             lobs, lver, lcov = drive_testlog.run(ctx, replay_obs=o)
             return ctx.finish(list(zip(lobs, lver)), rule="replay of one repository test under the call recorder",
                               nontrivial=nontrivial_key, samples=[], finding_key=finding_key, extra_cov=lcov)
-        if o.get("kind") == "conv":
+        if o.get("kind") == "conv" and o.get("factory"):
+            CONV_SCORES = ctx.generate("Gen_SimpleOps", "Gen_SimpleOps.cfg", env={"VERIF_TIER": "quick"})[0]["scores"]
+            obs = factory_lines(ctx)
+        elif o.get("kind") == "conv":
             obs = conv_lines()
         else:
             c = o["case"]
@@ -385,7 +444,6 @@ def run(ctx):
             raise core.MachineryError("self-test: defect switch OverwriteKeepsStale no longer violates InvReadable")
         g = ctx.generate("Gen_SeqViews", "Gen_SeqViews.cfg")[0]
         # conversion clause: every score the SimpleOps generator writes (notes on two channels, extras, trailing rests)
-        global CONV_SCORES
         CONV_SCORES = ctx.generate("Gen_SimpleOps", "Gen_SimpleOps.cfg", env={"VERIF_TIER": "quick"})[0]["scores"]
         edges = g["edges"]
         scripts = {x["op"]: x["script"] for x in g["scripts"]}
@@ -433,7 +491,7 @@ def run(ctx):
             return run_streamed(ctx, cases)
         res = pmap(execute, cases, chunk=100)
         obs = [ln for lines in res for ln in lines]
-        cl = conv_lines(CONV_SCORES)
+        cl = conv_lines(CONV_SCORES) + factory_lines(ctx)
         for i, x in enumerate(cl):
             x["grp"] = f"conv{i}"
         obs.extend(cl)
